@@ -161,6 +161,25 @@ def case_transform(ctx, op, dim=2, taper=False):
         z = ctx.var("z", 0.2, 3)
         new = mesh.expand(n=3, z=z)
         factor = z
+    elif op == "flip_masked":
+        # flip(mask): exactly the selected cells change their orientation (the repair Region's negative-volume warning recommends)
+        with ctx.concrete():
+            msk = np.array([True] + [False] * (mesh.ncells - 1))
+        new = mesh.flip(msk)
+        d1m = dV_of(ctx, new, cut=True)
+        ctx.equal("selected_cells_change_orientation_others_do_not", np.asarray(d1m).sum(axis=0), np.asarray(d0).sum(axis=0) * np.where(msk, -1, 1), tol=1e-12)
+        back = new.flip(msk)
+        ctx.check_concrete("masked_flip_twice_restores_connectivity", bool(np.array_equal(back.cells, mesh.cells)))
+        return
+    elif op == "disconnect_corners":
+        # disconnect(points_per_cell=4) of an 8-node quad mesh: every new cell refers to its own copies of the CORNER points
+        m8 = mesh.add_midpoints_edges()
+        new = m8.disconnect(points_per_cell=4)
+        ok_shape = np.asarray(new.cells).shape == (mesh.ncells, 4) and len(new.points) == 4 * mesh.ncells
+        ctx.check_concrete("one_point_per_cell_corner", bool(ok_shape))
+        if ok_shape:
+            ctx.equal("disconnected_cells_keep_the_corner_coordinates", np.asarray(new.points)[new.cells], np.asarray(mesh.points)[mesh.cells])
+        return
     elif op in ("revolve_phi_array_4", "revolve_phi_array_13"):
         # the revolution angles given as an ARRAY (length other than the default n = 11): one layer of cells per angle interval,
         # every cell index refers to an existing point, same mesh as with the scalar (phi, n) form
@@ -577,7 +596,7 @@ def case_merge(ctx, decimals):
 
 def cases(tier):
     out = [("generator", case_generator, {"kind": k, "max_paths": 16}) for k in ("Line", "Rectangle", "Cube", "Grid")]
-    ops2 = ["rotate", "translate", "mirror_axis", "mirror_normal", "flipflip", "triangulate", "expand", "midpoints_edges", "midpoints_faces", "disconnect", "concatenate_merge", "concatenate_unequal", "stack"]
+    ops2 = ["rotate", "translate", "mirror_axis", "mirror_normal", "flipflip", "triangulate", "expand", "midpoints_edges", "midpoints_faces", "disconnect", "disconnect_corners", "flip_masked", "concatenate_merge", "concatenate_unequal", "stack"]
     for op in ops2:
         out.append(("transform", case_transform, {"op": op, "dim": 2, "max_paths": 16}))
     ops3 = ["translate", "triangulate", "triangulate0", "mirror_axis"] + (["rotate", "midpoints_volumes", "convert2", "flipflip"] if tier == "thorough" else [])
